@@ -158,11 +158,93 @@ end
 /-- func_adl's generated parameter names `arg_<n>` are not kept apart from the user's names -/
 def argNameRisk (q : Q) : Bool := (allNames q).any isArgName
 
+
+/-! ### the steps in front of `simplify_chained_calls` -/
+
+def aggLambda (name : String) : Q :=
+  if name == "Sum" then .lam ["acc", "v"] (.node "bin:Add" [.var "acc", .var "v"])
+  else if name == "Max" then .lam ["acc", "v"] (.node "if" [.node "cmp:Gt" [.var "acc", .var "v"], .var "acc", .var "v"])
+  else if name == "Min" then .lam ["acc", "v"] (.node "if" [.node "cmp:Lt" [.var "acc", .var "v"], .var "acc", .var "v"])
+  else .lam ["acc", "v"] (.node "bin:Add" [.var "acc", .lit "int:1"])
+
+mutual
+/-- `aggregate_node_transformer`: `Count(s)`/`len(s)`, `Sum`, `Max`, `Min` become
+`Aggregate(s, 0, lambda acc, v: …)` — with the fixed parameter names `acc` and `v`. -/
+def aggNorm : Q → Q
+  | .var x => .var x
+  | .lit c => .lit c
+  | .lam ps b => .lam ps (aggNorm b)
+  | .app (.var f) (a :: rest) =>
+    if ((f == "len" || f == "Count") && rest.isEmpty) || f == "Sum" || f == "Max" || f == "Min"
+    then Q.call "Aggregate" [aggNorm a, .lit "int:0", aggLambda f]
+    else .app (.var f) (aggNorm a :: aggNormL rest)
+  | .app f as => .app (aggNorm f) (aggNormL as)
+  | .node t ks => .node t (aggNormL ks)
+def aggNormL : List Q → List Q
+  | [] => []
+  | q :: qs => aggNorm q :: aggNormL qs
+end
+
+/-- the query as `simplify_chained_calls` receives it -/
+def preSimp (q : Q) : Q := aggNorm (normStyle (strip q).1)
+
+mutual
+/-- free occurrences of a name -/
+def occ (x : String) : Q → Nat
+  | .var y => if x = y then 1 else 0
+  | .lit _ => 0
+  | .lam ps b => if x ∈ ps then 0 else occ x b
+  | .app f as => occ x f + occL x as
+  | .node _ ks => occL x ks
+def occL (x : String) : List Q → Nat
+  | [] => 0
+  | q :: qs => occ x q + occL x qs
+end
+
+/-- the stream a chain of Select/Where/SelectMany calls starts from -/
+def chainBase : Q → Q
+  | .app (.var op) (src :: rest) =>
+    if op == "Select" || op == "Where" || op == "SelectMany" then chainBase src else .app (.var op) (src :: rest)
+  | q => q
+
+mutual
+/-- names that are the start of a chain containing a `Where` -/
+def whereBases : Q → List String
+  | .var _ => []
+  | .lit _ => []
+  | .lam _ b => whereBases b
+  | .app f as =>
+    (match f, as with
+      | .var op, src :: _ => if op == "Where" then (match chainBase src with | .var x => [x] | _ => []) else []
+      | _, _ => [])
+    ++ whereBases f ++ whereBasesL as
+  | .node _ ks => whereBasesL ks
+def whereBasesL : List Q → List String
+  | [] => []
+  | q :: qs => whereBases q ++ whereBasesL qs
+end
+
+mutual
+/-- func_adl substitutes *the same AST object* for every use of a parameter and later rewrites such objects in
+place (fusing a `Where` onto a bound stream β-reduces the bound stream's own predicate object): a parameter
+that is used more than once and is the start of a chain with a `Where` can have its other uses corrupted.
+Evaluated on `preSimp q`. -/
+def aliasRisk : Q → Bool
+  | .var _ => false
+  | .lit _ => false
+  | .lam ps b => ps.any (fun p => decide (occ p b ≥ 2) && decide (p ∈ whereBases b)) || aliasRisk b
+  | .app f as => aliasRisk f || aliasRiskL as
+  | .node _ ks => aliasRiskL ks
+def aliasRiskL : List Q → Bool
+  | [] => false
+  | q :: qs => aliasRisk q || aliasRiskL qs
+end
+
 /-- the normal forms of `simplify_chained_calls` agree up to α (used to keep fusing variants whose *simplified
 queries* differ — re-association of three `Where`s, duplicated selections — out of the main stream) -/
 def sameNormalFormB (fuel : Nat) (q q' : Q) : Bool :=
-  let a := (simp fuel [] 0 (normStyle (strip q).1)).1
-  let b := (simp fuel [] 0 (normStyle (strip q').1)).1
+  let a := (simp fuel [] 0 (preSimp q)).1
+  let b := (simp fuel [] 0 (preSimp q')).1
   !hasBang a && !hasBang b && resolve [] a == resolve [] b
 
 end FaxVerif.C08
